@@ -63,6 +63,9 @@ pub struct FaultPlan {
     pub write_errno: i32,
     /// Reads of the target at or beyond this offset fail with EIO.
     pub read_fail_at_offset: Option<u64>,
+    /// The n-th (0-based) non-empty read call on the target fails once with EIO; later calls
+    /// succeed (a transient medium error). May be re-armed by the simulator between operations.
+    pub read_fail_at_call: Option<u64>,
     /// Benign faults (result must be unchanged): percentages 0..=100 per call, all sim files.
     pub short_write_pct: u8,
     pub eintr_write_pct: u8,
@@ -74,6 +77,7 @@ pub struct FaultPlan {
     pub write_calls: u64,
     pub flush_calls: u64,
     pub write_failed: bool,
+    pub read_calls: u64,
 }
 
 impl FaultPlan {
@@ -410,6 +414,14 @@ impl Read for File {
         let d = with(|w| {
             if want as u64 > w.max_read_request {
                 w.max_read_request = want as u64;
+            }
+            if is_target && want > 0 {
+                let call = w.faults.read_calls;
+                w.faults.read_calls += 1;
+                if w.faults.read_fail_at_call == Some(call) {
+                    fired(w, "eio_read_call");
+                    return D::Eio;
+                }
             }
             if is_target {
                 if let Some(off) = w.faults.read_fail_at_offset {
